@@ -264,54 +264,65 @@ Definition catch_state_list (s : catch_state) :=
 (* the local `accuracy` of catch/performance/mod.rs: no zero-denominator guard (0/0 = NaN) *)
 Definition catch_accuracy (f d t tm m : Z) : float := fdiv_z (f + d + t) (f + d + t + tm + m).
 
-Definition catch_generate (i : catch_in) : catch_state :=
-  let af := ci_fruits i in let ad := ci_droplets i in let at_ := ci_tiny i in
+(* fruits and droplets: the `match (self.fruits, self.droplets)` of generate_state *)
+Definition catch_fd (i : catch_in) (misses : Z) : Z * Z :=
+  let af := ci_fruits i in let ad := ci_droplets i in
   let total := af + ad in
+  match ci_o_fruits i, ci_o_droplets i with
+  | Some f, Some d =>
+      let n_remaining := sat_sub total (f + d + misses) in
+      let new_d := Z.min n_remaining (sat_sub ad d) in
+      let d := d + new_d in
+      let f := f + (n_remaining - new_d) in
+      let f := Z.min f (sat_sub total (d + misses)) in
+      let d := Z.min d (total - f - misses) in
+      (f, d)
+  | Some f, None =>
+      let d := sat_sub ad (sat_sub misses (sat_sub af f)) in
+      (total - misses - d, d)
+  | None, Some d =>
+      let f := sat_sub af (sat_sub misses (sat_sub ad d)) in
+      (f, total - misses - f)
+  | None, None =>
+      let d := sat_sub ad misses in
+      (af - (misses - sat_sub ad d), d)
+  end.
+
+(* the closure `find_best_tiny_droplets` *)
+Definition catch_find_best (i : catch_in) (nf nd misses : Z) (acc : float) : Z * Z :=
+  let af := ci_fruits i in let ad := ci_droplets i in let at_ := ci_tiny i in
+  let raw := (acc * of_Z (af + ad + at_) - of_Z (nf + nd))%float in
+  let lo := Z.min at_ (to_u32 (ffloor raw)) in
+  let hi := Z.min at_ (to_u32 (fceil raw)) in
+  snd (pick (fun t => (t, at_ - t))
+            (fun t => fdist acc (catch_accuracy nf nd t (at_ - t) misses))
+            (range_incl lo hi) (infinity, (0, 0))).
+
+(* tiny droplets and tiny droplet misses *)
+Definition catch_tiny (i : catch_in) (nf nd misses : Z) : Z * Z :=
+  let at_ := ci_tiny i in
+  match ci_o_tiny i, ci_o_tiny_misses i with
+  | Some t, Some tm =>
+      match ci_acc i with
+      | Some acc => if t + tm =? at_ then (t, tm) else catch_find_best i nf nd misses acc
+      | None => (t + sat_sub at_ (t + tm), tm)
+      end
+  | Some t, None => (Z.min at_ t, sat_sub at_ t)
+  | None, Some tm => (sat_sub at_ tm, Z.min at_ tm)
+  | None, None =>
+      match ci_acc i with
+      | Some acc => catch_find_best i nf nd misses acc
+      | None => (at_, 0)
+      end
+  end.
+
+Definition catch_generate (i : catch_in) : catch_state :=
+  let total := ci_fruits i + ci_droplets i in
   let misses := omin (ci_misses i) total in
   let max_possible := sat_sub total misses in       (* max_combo() = n_fruits + n_droplets *)
   let combo := match ci_combo i with Some c => Z.min c max_possible | None => max_possible end in
-  let '(nf, nd) :=
-    match ci_o_fruits i, ci_o_droplets i with
-    | Some f, Some d =>
-        let n_remaining := sat_sub total (f + d + misses) in
-        let new_d := Z.min n_remaining (sat_sub ad d) in
-        let d := d + new_d in
-        let f := f + (n_remaining - new_d) in
-        let f := Z.min f (sat_sub total (d + misses)) in
-        let d := Z.min d (total - f - misses) in
-        (f, d)
-    | Some f, None =>
-        let d := sat_sub ad (sat_sub misses (sat_sub af f)) in
-        (total - misses - d, d)
-    | None, Some d =>
-        let f := sat_sub af (sat_sub misses (sat_sub ad d)) in
-        (f, total - misses - f)
-    | None, None =>
-        let d := sat_sub ad misses in
-        (af - (misses - sat_sub ad d), d)
-    end in
-  let find_best (acc : float) : Z * Z :=
-    let raw := (acc * of_Z (af + ad + at_) - of_Z (nf + nd))%float in
-    let lo := Z.min at_ (to_u32 (ffloor raw)) in
-    let hi := Z.min at_ (to_u32 (fceil raw)) in
-    snd (pick (fun t => (t, at_ - t))
-              (fun t => fdist acc (catch_accuracy nf nd t (at_ - t) misses))
-              (range_incl lo hi) (infinity, (0, 0))) in
-  let '(t, tm) :=
-    match ci_o_tiny i, ci_o_tiny_misses i with
-    | Some t, Some tm =>
-        match ci_acc i with
-        | Some acc => if t + tm =? at_ then (t, tm) else find_best acc
-        | None => (t + sat_sub at_ (t + tm), tm)
-        end
-    | Some t, None => (Z.min at_ t, sat_sub at_ t)
-    | None, Some tm => (sat_sub at_ tm, Z.min at_ tm)
-    | None, None =>
-        match ci_acc i with
-        | Some acc => find_best acc
-        | None => (at_, 0)
-        end
-    end in
+  let '(nf, nd) := catch_fd i misses in
+  let '(t, tm) := catch_tiny i nf nd misses in
   mk_catch_state combo nf nd t tm misses.
 
 Definition catch_feed_back (i : catch_in) (s : catch_state) : catch_in :=
